@@ -144,6 +144,17 @@ def enclosing_func(node):
 
 
 def guards(node, stop=None):
+    """(test, polarity) facts that hold whenever `node` executes, innermost first, up to (excluding) `stop`: the enclosing
+    If / While / IfExp / comprehension-if tests and the negation of every earlier sibling `if T: <always leaves>` (early
+    continue / return / break / raise) of the enclosing blocks.  Leading `not`s are folded into the polarity, so that
+    `if c: continue; S`, `if not c: S` and `if c: pass else: S` all give S the same facts."""
+    import os
+    if os.environ.get("MSA_OLD_GUARDS"):
+        return raw_guards(node, stop)
+    return [strip_not(t, p) for t, p in conditions(node, stop=stop)]
+
+
+def raw_guards(node, stop=None):
     """List of (test_expr, polarity) of the If / While / IfExp / comprehension-if that
     enclose `node`, innermost first, up to (excluding) `stop`."""
     out = []
@@ -232,3 +243,92 @@ def find_calls(node, tail=None, name=None):
 
 def first_line(node):
     return getattr(node, "lineno", 0)
+
+
+# ---------------------------------------------------------------- normal forms shared by the rules (layout-independent matching)
+def increment(st):
+    """`x += e` / `x -= e` / `x = x + e` / `x = e + x` / `x = x - e`  ->  (target source, sign, e)   (None otherwise).
+    The target may be a name, an attribute or a subscript; for the rebinding forms the left operand must be the target itself."""
+    if isinstance(st, ast.AugAssign) and isinstance(st.op, (ast.Add, ast.Sub)):
+        return src(st.target), (1 if isinstance(st.op, ast.Add) else -1), st.value
+    if isinstance(st, ast.Assign) and len(st.targets) == 1 and isinstance(st.value, ast.BinOp) and isinstance(st.value.op, (ast.Add, ast.Sub)):
+        t = src(st.targets[0])
+        if src(st.value.left) == t:
+            return t, (1 if isinstance(st.value.op, ast.Add) else -1), st.value.right
+        if isinstance(st.value.op, ast.Add) and src(st.value.right) == t:
+            return t, 1, st.value.left
+    return None
+
+
+_NEG = {ast.Lt: ast.GtE, ast.LtE: ast.Gt, ast.Gt: ast.LtE, ast.GtE: ast.Lt, ast.Eq: ast.NotEq, ast.NotEq: ast.Eq,
+        ast.In: ast.NotIn, ast.NotIn: ast.In, ast.Is: ast.IsNot, ast.IsNot: ast.Is}
+_SWAP = {ast.Gt: ast.Lt, ast.GtE: ast.LtE}
+_OPS = {ast.Lt: "<", ast.LtE: "<=", ast.Eq: "==", ast.NotEq: "!=", ast.In: "in", ast.NotIn: "not in", ast.Is: "is", ast.IsNot: "is not"}
+
+
+def canon_test(test, pol=True):
+    """Canonical text of `test` holding with polarity `pol`: leading `not`s are folded into the polarity, a single comparison is
+    negated through its operator when pol is False, `>` / `>=` are written as `<` / `<=` with swapped operands, the operands of
+    `==` / `!=` are ordered.  Anything else is returned as its source, prefixed by `not ` when pol is False.
+    `not (a in b)`, `a not in b`;  `b > a`, `a < b`, `not a >= b`  all give the same text."""
+    while isinstance(test, ast.UnaryOp) and isinstance(test.op, ast.Not):
+        test, pol = test.operand, not pol
+    if isinstance(test, ast.Compare) and len(test.ops) == 1 and type(test.ops[0]) in _NEG:
+        op = type(test.ops[0])
+        l, r = test.left, test.comparators[0]
+        if not pol:
+            op = _NEG[op]
+        if op in _SWAP:
+            op, l, r = _SWAP[op], r, l
+        ls, rs = src(l), src(r)
+        if op in (ast.Eq, ast.NotEq) and rs < ls:
+            ls, rs = rs, ls
+        return f"{ls} {_OPS[op]} {rs}"
+    return src(test) if pol else f"not {src(test)}"
+
+
+def strip_not(test, pol=True):
+    while isinstance(test, ast.UnaryOp) and isinstance(test.op, ast.Not):
+        test, pol = test.operand, not pol
+    return test, pol
+
+
+def _leaves(body):
+    """every path through `body` ends in continue / break / return / raise (conservative, structured code only)"""
+    if not body:
+        return False
+    last = body[-1]
+    if isinstance(last, (ast.Continue, ast.Break, ast.Return, ast.Raise)):
+        return True
+    if isinstance(last, ast.If) and last.orelse:
+        return _leaves(last.body) and _leaves(last.orelse)
+    return False
+
+
+def conditions(node, stop=None, toplevel=False):
+    """(test, polarity) facts that hold whenever `node` executes: the enclosing if / while / conditional-expression guards and the
+    negation of every earlier sibling `if T: <always leaves>` of the enclosing blocks, innermost first, up to `stop` (excluded) or the
+    enclosing function.  `if c: continue; S` and `if not c: S` give the same facts for S.  Early returns in the top-level block of
+    the function (special cases answered up front: empty input, single target ...) are only included with toplevel=True."""
+    out = list(raw_guards(node, stop=stop))
+    cur = node if isinstance(node, ast.stmt) else enclosing_stmt(node)
+    while cur is not None and cur is not stop and not isinstance(cur, (ast.FunctionDef, ast.AsyncFunctionDef, ast.Module, ast.ClassDef)):
+        blk, owner = enclosing_block(cur)
+        if blk and (toplevel or not isinstance(owner, (ast.FunctionDef, ast.AsyncFunctionDef))):
+            for s in blk:
+                if s is cur:
+                    break
+                if isinstance(s, ast.If):
+                    bl, el = _leaves(s.body), _leaves(s.orelse)
+                    if bl and not el:
+                        out.append((s.test, False))
+                    elif el and not bl:
+                        out.append((s.test, True))
+        if isinstance(owner, ast.ExceptHandler):
+            owner = parent(owner)
+        cur = owner if isinstance(owner, ast.stmt) else None
+    return out
+
+
+def canon_conditions(node, stop=None):
+    return [canon_test(t, p) for t, p in conditions(node, stop=stop)]
